@@ -235,6 +235,8 @@ def gen_scenario(rng, prof=None, force_selflock=None):
     if rng.random() < 0.25:
         load['step_t'] = dt_si * (rng.randint(1, max(1, n - 1)) + 0.5)       # half-way between two instants: never a rounding matter
         load['step_A'] = sig(rng.uniform(-2, 2) * T_out, 3)
+    if rng.random() < p.get('p_load_units_cycle', 0.3):
+        load['units_cycle'] = rng.sample(SI.units('Torque'), rng.randint(2, 3))
     spec['load'] = load
     # initial conditions
     if rng.random() < p['p_ic_zero']:
